@@ -514,7 +514,7 @@ impl Monitor for C07 {
             return;
         }
         k -= self.n_hdr;
-        let max_plain = self.tier.pick(60_000, 400_000);
+        let max_plain = self.tier.pick(200_000, 500_000);
         if k < self.n_gen {
             let mut r = Rng::derive(self.seed, 0x0703, k, 0);
             match streams::generator_stream(&mut r, max_plain) {
